@@ -119,9 +119,10 @@ theorem lagRankGo_sound (d : Dir) (d2 : Q) : ∀ (fuel k0 r : Nat), lagRankGo d 
 /-- **the lag returned for a pair is the one its distance falls in**: `lagRank d² = k` only if
 `(k − ½)·dpas ≤ dist < (k + ½)·dpas` (stated on squares: every nearer half-lag boundary is below
 `d²`, the next one above), `|dist − k·dpas| ≤ toldis·dpas` and `k < npas` -/
-theorem lag_sound (d : Dir) (d2 : Q) (k : Nat) (h : lagRank d d2 = some k) :
+theorem lag_sound (d : Dir) (d2 : Q) (k : Nat) (hreg : d.breaks.length < 2) (h : lagRank d d2 = some k) :
     d2 < Vario.sq (((k : Q) + 1/2) * d.dpas) ∧ (∀ j, j < k → Vario.sq (((j : Q) + 1/2) * d.dpas) ≤ d2) ∧
     InTol d d2 k ∧ k < d.npas := by
+  simp only [lagRank, if_pos hreg] at h
   obtain ⟨_, b, c, e, f⟩ := lagRankGo_sound d d2 _ 0 k h
   exact ⟨b, fun j hj => c j (Nat.zero_le _) hj, e, f⟩
 
@@ -145,19 +146,117 @@ theorem lagRankGo_complete (d : Dir) (d2 : Q) (r : Nat) (hup : d2 < Vario.sq (((
 /-- … and conversely every pair whose distance falls in lag `k < npas` within the tolerance is
 assigned to lag `k` -/
 theorem lag_complete (d : Dir) (d2 : Q) (k : Nat) (hup : d2 < Vario.sq (((k : Q) + 1/2) * d.dpas))
-    (hlow : ∀ j, j < k → Vario.sq (((j : Q) + 1/2) * d.dpas) ≤ d2) (hin : InTol d d2 k) (hk : k < d.npas) :
+    (hlow : ∀ j, j < k → Vario.sq (((j : Q) + 1/2) * d.dpas) ≤ d2) (hin : InTol d d2 k) (hk : k < d.npas)
+    (hreg : d.breaks.length < 2) :
     lagRank d d2 = some k := by
-  unfold lagRank
+  simp only [lagRank, if_pos hreg]
   exact lagRankGo_complete d d2 k hup hin hk (d.npas + 2) 0 (Nat.zero_le _) (by omega)
     (fun j _ b => hlow j b)
 
 /-! non-vacuity: three collinear samples -/
 def s3 : List Sample := [⟨[0], [some 1], none, true⟩, ⟨[1], [some 3], none, true⟩, ⟨[2], [some 2], none, true⟩]
-def d1 : Dir := ⟨[1], 0, none, none, 3, 1, 1/2, false⟩
-def d1o : Dir := ⟨[1], 0, none, none, 3, 1, 1/2, true⟩
+def d1 : Dir := ⟨[1], 0, none, none, 3, 1, 1/2, false, []⟩
+def d1o : Dir := ⟨[1], 0, none, none, 3, 1, 1/2, true, []⟩
 example : SortedX s3 := by simp [SortedX, s3]
 example : (lagDef d1 0 0 1 s3).1 = 2 ∧ (lagDef d1 0 0 1 s3).2.1 = some (5/4) := by decide +kernel
 /-- order-4 variogram of the same data: ½(2⁴ + 1⁴)/2 = 17/4 -/
 example : (lagDef d1o 0 0 1 s3).2.1 = some (17/4) := by decide +kernel
+
+/-! ### irregular lag classes (`breaks`) -/
+
+/-- class `k` of a list of breaks (on squares): `breaks[k] < dist ≤ breaks[k+1]` -/
+def InClass (bs : List Q) (d2 : Q) (k : Nat) : Prop :=
+  ∃ b0 b1, bs[k]? = some b0 ∧ bs[k + 1]? = some b1 ∧ (b0 < 0 ∨ Vario.sq b0 < d2) ∧ (0 ≤ b1 ∧ d2 ≤ Vario.sq b1)
+
+theorem lagBreaksGo_sound : ∀ (bs : List Q) (d2 : Q) (k0 r : Nat), lagBreaksGo bs d2 k0 = some r →
+    k0 ≤ r ∧ InClass bs d2 (r - k0) ∧ ∀ j, j < r - k0 → ¬ InClass bs d2 j
+  | [], _, _, _, h => by simp [lagBreaksGo] at h
+  | [_], _, _, _, h => by simp [lagBreaksGo] at h
+  | b0 :: b1 :: rest, d2, k0, r, h => by
+    simp only [lagBreaksGo] at h
+    split at h
+    · rename_i hin
+      injection h with h; subst h
+      refine ⟨le_refl _, ?_, fun j hj => by omega⟩
+      rw [Nat.sub_self]
+      exact ⟨b0, b1, rfl, rfl, hin.1, hin.2⟩
+    · rename_i hout
+      obtain ⟨h1, h2, h3⟩ := lagBreaksGo_sound (b1 :: rest) d2 (k0 + 1) r h
+      refine ⟨by omega, ?_, ?_⟩
+      · obtain ⟨c0, c1, e0, e1, hc⟩ := h2
+        have : r - k0 = (r - (k0 + 1)) + 1 := by omega
+        rw [this]
+        exact ⟨c0, c1, by simpa using e0, by simpa using e1, hc⟩
+      · intro j hj
+        cases j with
+        | zero =>
+          rintro ⟨c0, c1, e0, e1, hc⟩
+          simp only [List.getElem?_cons_zero, Option.some.injEq, zero_add, List.getElem?_cons_succ] at e0 e1
+          subst e0; subst e1
+          exact hout hc
+        | succ i =>
+          rintro ⟨c0, c1, e0, e1, hc⟩
+          exact h3 i (by omega) ⟨c0, c1, by simpa using e0, by simpa using e1, hc⟩
+
+theorem lagBreaksGo_complete : ∀ (bs : List Q) (d2 : Q) (k0 r : Nat), InClass bs d2 r →
+    (∀ j, j < r → ¬ InClass bs d2 j) → lagBreaksGo bs d2 k0 = some (k0 + r)
+  | [], _, _, _, ⟨_, _, e0, _, _⟩, _ => by simp at e0
+  | [_], _, _, _, ⟨_, _, _, e1, _⟩, _ => by simp at e1
+  | b0 :: b1 :: rest, d2, k0, r, hin, hfirst => by
+    simp only [lagBreaksGo]
+    cases r with
+    | zero =>
+      obtain ⟨c0, c1, e0, e1, hc⟩ := hin
+      simp only [List.getElem?_cons_zero, Option.some.injEq, zero_add, List.getElem?_cons_succ] at e0 e1
+      subst e0; subst e1
+      rw [if_pos hc]; rfl
+    | succ i =>
+      have h0 : ¬ ((b0 < 0 ∨ Vario.sq b0 < d2) ∧ (0 ≤ b1 ∧ d2 ≤ Vario.sq b1)) := by
+        intro hc
+        exact hfirst 0 (by omega) ⟨b0, b1, rfl, rfl, hc.1, hc.2⟩
+      rw [if_neg h0]
+      have := lagBreaksGo_complete (b1 :: rest) d2 (k0 + 1) i
+        (by obtain ⟨c0, c1, e0, e1, hc⟩ := hin; exact ⟨c0, c1, by simpa using e0, by simpa using e1, hc⟩)
+        (fun j hj ⟨c0, c1, e0, e1, hc⟩ => hfirst (j + 1) (by omega) ⟨c0, c1, by simpa using e0, by simpa using e1, hc⟩)
+      rw [this]; congr 1; omega
+
+/-- **irregular classes**: the lag returned is the first class `]breaks[k], breaks[k+1]]` holding the
+distance, among the `npas` classes -/
+theorem lag_breaks_sound (d : Dir) (d2 : Q) (k : Nat) (hirr : 2 ≤ d.breaks.length) (h : lagRank d d2 = some k) :
+    InClass d.breaks d2 k ∧ (∀ j, j < k → ¬ InClass d.breaks d2 j) ∧ k < d.npas := by
+  simp only [lagRank, if_neg (by omega : ¬ d.breaks.length < 2)] at h
+  cases hb : lagBreaksGo d.breaks d2 0 with
+  | none => simp [hb] at h
+  | some r =>
+    rw [hb] at h
+    simp only [Option.filter] at h
+    split at h
+    · rename_i hlt
+      injection h with h; subst h
+      obtain ⟨_, h2, h3⟩ := lagBreaksGo_sound d.breaks d2 0 r hb
+      exact ⟨by simpa using h2, fun j hj => h3 j (by simpa using hj), by simpa using hlt⟩
+    · cases h
+
+/-- … and every distance lying in a class `k < npas` (and in none before it) is assigned to `k`:
+no pair of the first class is lost, none outside every class is kept -/
+theorem lag_breaks_complete (d : Dir) (d2 : Q) (k : Nat) (hirr : 2 ≤ d.breaks.length)
+    (hin : InClass d.breaks d2 k) (hfirst : ∀ j, j < k → ¬ InClass d.breaks d2 j) (hk : k < d.npas) :
+    lagRank d d2 = some k := by
+  simp only [lagRank, if_neg (by omega : ¬ d.breaks.length < 2)]
+  have := lagBreaksGo_complete d.breaks d2 0 k hin hfirst
+  rw [this]
+  simp [Option.filter, hk]
+
+/-- a distance below the first break (or beyond the last) belongs to no lag -/
+theorem lag_breaks_outside (d : Dir) (d2 : Q) (hirr : 2 ≤ d.breaks.length)
+    (hout : ∀ k, ¬ InClass d.breaks d2 k) : lagRank d d2 = none := by
+  cases h : lagRank d d2 with
+  | none => rfl
+  | some k => exact absurd (lag_breaks_sound d d2 k hirr h).1 (hout k)
+
+/-- non-vacuity: classes ]1,2], ]2,3.5]; distances 0.5 (none), 1.5 (class 0), 3 (class 1) -/
+def db : Dir := ⟨[1], 0, none, none, 2, 1, 1/2, false, [1, 2, 7/2]⟩
+example : lagRank db (1/4) = none ∧ lagRank db (9/4) = some 0 ∧ lagRank db 9 = some 1 ∧ lagRank db 16 = none := by
+  decide +kernel
 
 end GstProofs.C12
